@@ -16,12 +16,13 @@ def view(prog, key):
 
 
 def crate_fns(prog, crate):
+    """Bodies of a crate; helpers that are spliced into their callers (facts.Program.transparent) are not listed on their own."""
     pre = crate + "::"
-    return sorted(k for k in prog.ix if k.startswith(pre))
+    return sorted(k for k in prog.ix if k.startswith(pre) and k not in prog.transparent)
 
 
 def root_name(prog, key):
-    return prog.name(prog.ix[key].get("root") or key)
+    return prog.name(prog.host(key))
 
 
 def last_field(place):
